@@ -607,17 +607,25 @@ READY = True
 JOBS = 12
 
 THEOREMS = ["Dashu.Props.C06." + n for n in [
-    "spec_rounding_is_nearest", "spec_rounding_ties_to_even", "spec_rational_extends_dyadic", "decode_reads_fields_f32", "decode_reads_fields_f64",
-    "encode_correct_f32", "encode_correct_f64", "encode_correct_generic",
-    "encode_decode_roundtrip_f32", "encode_decode_roundtrip_f64",
-    "encode_asis_f32_counterexample_flag", "encode_asis_f32_counterexample_value", "encode_asis_f64_counterexample_flag",
-    "encode_asis_f64_counterexample_value", "encode_asis_f32_counterexample_subnormal", "encode_asis_f64_counterexample_subnormal",
+    "spec_rounding_is_nearest", "spec_rounding_ties_to_even", "decode_reads_fields_f32", "decode_reads_fields_f64",
+    "spec_rational_extends_dyadic", "encode_correct_f32", "encode_correct_f64", "encode_correct_generic",
+    "encode_decode_roundtrip_f32", "encode_decode_roundtrip_f64", "encode_asis_f32_counterexample_flag",
+    "encode_asis_f32_counterexample_value", "encode_asis_f64_counterexample_flag", "encode_asis_f64_counterexample_value",
+    "encode_asis_f32_counterexample_subnormal", "encode_asis_f64_counterexample_subnormal",
     "encode_asis_f32_counterexample_underflow", "encode_asis_f32_counterexample_shift_panic",
-    "encode_asis_f64_counterexample_shift_panic", "encode_asis_counterexample_exponent_overflow",
-    "sticky_bit_lemma", "ubig_to_f64_correct", "ubig_to_f32_correct", "ibig_to_float_sign", "to_f64_small_asis_counterexample",
-    "ubig_try_to_f32_sound", "ubig_try_to_f64_sound", "ubig_try_from_float_exact_or_refused", "ibig_try_from_float_exact_or_refused", "int_from_float_asis_counterexample",
-    "try_to_unsigned_in_range_iff", "try_from_sign_magnitude_in_range_iff", "to_sign_magnitude_exact", "from_unsigned_roundtrip",
-    "rbig_to_f32_correct", "rbig_to_f64_correct", "rbig_to_f32_asis_counterexample", "rbig_to_f64_asis_counterexample"]]
+    "encode_asis_f64_counterexample_shift_panic", "encode_asis_counterexample_exponent_overflow", "sticky_bit_lemma",
+    "ubig_to_f64_correct", "ubig_to_f32_correct", "ibig_to_float_sign", "to_f64_small_asis_counterexample",
+    "ubig_try_to_f32_sound", "ubig_try_to_f64_sound", "ubig_try_from_float_exact_or_refused",
+    "ibig_try_from_float_exact_or_refused", "int_from_float_asis_counterexample", "try_to_unsigned_in_range_iff",
+    "try_from_sign_magnitude_in_range_iff", "to_sign_magnitude_exact", "from_unsigned_roundtrip", "rbig_to_f32_correct",
+    "rbig_to_f64_correct", "rbig_to_f32_asis_counterexample", "rbig_to_f64_asis_counterexample", "rbig_try_to_ibig_iff",
+    "rbig_try_to_ubig_iff", "rbig_try_to_prim_iff", "rbig_to_int_truthful", "rbig_try_from_float_exact",
+    "rbig_try_from_float_refuses", "fbig_try_from_float_exact", "fbig_try_to_ibig_iff", "fbig_try_to_ubig_sound",
+    "fbig_try_to_prim_iff", "fbig_to_rbig_exact", "rbig_try_to_f32_sound", "rbig_try_to_f64_sound",
+    "fbig_to_int_follows_mode", "repr_to_int_truncates", "double_rounding_lemma", "fbig_first_rounding",
+    "fbig_to_f64_normal_form", "fbig_to_f32_normal_form", "fbig_to_f64_value_iff", "fbig_to_f32_value_iff",
+    "fbig_to_f64_flag_iff", "fbig_to_f32_flag_iff", "fbig_to_f64_bad_regions_inhabited", "rbig_to_f64_fast_normal_form",
+    "rbig_to_f32_fast_normal_form", "rbig_to_float_fast_quotient_bound"]]
 EXTRA_AXIOMS = {}      # bv_decide was NOT needed: encode_correct is an arithmetic proof (propext, Classical.choice, Quot.sound only)
 
 REFINED = [
@@ -632,14 +640,27 @@ REFINED = [
     "LossOfPrecision for f32)",
     "rational/src/convert.rs Repr::to_f32/to_f64 (shift to prec+2 bits, long division, sticky, encode) == IEEE rounding of the rational, for "
     "every numerator/denominator (sticky lemma for non-dyadic quotients)",
+    "float/src/convert.rs FBig::<R,2>::to_f32 (every mode) / FBig::to_f64 / Repr::<2>::to_f32/to_f64: first rounding through the regenerated "
+    "round_low_part tables == magnitude rounding; normal form (bits = IEEE rounding of the first-rounded value); for the round-half-even "
+    "path the value is correct IFF not ToFloatBad and the flag truthful IFF not ToFloatFlagBad (closed forms = the finding predicates)",
+    "float/src/convert.rs TryFrom<FBig> for IBig/UBig/uN/iN (any base, sound log2 estimate as oracle), TryFrom<f32|f64> for FBig<_,2>; "
+    "rational/src/third_party/dashu_float.rs TryFrom<FBig> for RBig",
+    "rational/src/convert.rs TryFrom<RBig> for IBig/UBig/uN/iN (iff integer in range), TryFrom<f32|f64> for RBig (exact), "
+    "TryFrom<RBig> for f32/f64 (a success is exact), RBig::to_int (truncation, Exact iff integer, fraction is the rest)",
+    "FBig::to_int / Repr::to_int: re-exported from builder-float's proofs (mode followed, flagged inexact)",
     "integer/src/convert.rs try_to_unsigned / unsigned_from_words (all word sizes that are multiples of 8), "
     "integer/src/primitive.rs to_sign_magnitude / try_from_sign_magnitude (all widths), from_unsigned round trip",
 ]
 FRONTIER = [
-    "rational/src/convert.rs to_f32_fast/to_f64_fast: mirrored; only a 3-ulp bound is checked per case",
-    "TryFrom<RBig> for f32/f64/ints/UBig/IBig, RBig::try_from(f32/f64), RBig::to_int: spec only (exact rational arithmetic in the driver)",
-    "RBig::to_float, FBig::to_f32/to_f64/to_int, Repr::to_f32/to_int, TryFrom<FBig> for ints/IBig/UBig/RBig/f32/f64, FBig::try_from(f32/f64), "
-    "From<RBig> for FBig: spec only (single rounding of the exact rational value under the documented mode, flags derived from the true error)",
+    "rational/src/convert.rs to_f32_fast/to_f64_fast: mirrored, normal form and the quotient-level error bound (< 4.5 units of the quotient, "
+    "i.e. < 2.5 ulps before encode's correct rounding) are proved; the resulting 3-unit bound on the bit patterns (all regimes incl. "
+    "subnormal/overflow) is checked per case",
+    "TryFrom<RBig> for f32/f64: completeness (every exactly representable rational is accepted) and the KIND of a refusal are checked per case "
+    "against the spec, not proved (soundness is proved)",
+    "FBig::<R,2>::to_f32 with a directed mode / HalfAway: normal form proved; the failing region (subnormal results: encode rounds to nearest "
+    "after the directed first rounding) is decided per case against the single-rounding spec, no closed form",
+    "FBig/Repr::to_f32/to_f64 for bases that are not 2 (convert_base: division or ln/exp path), RBig::to_float, From<RBig> for FBig: spec only "
+    "(single rounding of the exact rational value under the documented mode, flags derived from the true error)",
 ]
 RULE = ("Structured, built from the branch conditions of the code. encode/decode: ALL exponents (qmin-N-6 .. emax+6, and the i16 extremes) x "
         "mantissa classes {1, 3, 2^k, 2^k-1, 2^p±1, i32/i64 MIN/MAX} plus, for every mantissa length L and every cut position k (normal cut L-p, "
